@@ -544,6 +544,59 @@ def r18_try_for_each(src, log):
 
 
 
+def r19_any_all(src, log, kind="vec"):
+    """`X.iter().any(|p| B)` -> `{ let s__k = &X; let mut i__k: usize = 0; let mut r__k = false;
+          while i__k < s__k.len() { let p = &s__k[i__k]; if B { r__k = true; break; } i__k += 1; } r__k }`
+    (`all`: r = true, `if !(B) { r = false; break; }`).  std's `any`/`all` over a slice iterator visit the elements in
+    order and stop at the first hit; kind=slice uses `let s__k = X;` for a receiver that already is a `&[T]`."""
+    n = 0
+    while True:
+        toks = lex(src); m = match_brackets(toks); s = sig(toks)
+        hit = None
+        for k, i in enumerate(s):
+            if toks[i].text == "." and k + 6 < len(s) and toks[s[k + 1]].text == "iter" and toks[s[k + 2]].text == "(" \
+                    and toks[s[k + 3]].text == ")" and toks[s[k + 4]].text == "." and toks[s[k + 5]].text in ("any", "all") \
+                    and toks[s[k + 6]].text == "(":
+                which = toks[s[k + 5]].text
+                o = s[k + 6]; c = m[o]; ck = s.index(c)
+                cl = _closure_spans(toks, s, m, k + 6, ck)
+                if not cl or cl[0][0] != k + 7:
+                    continue
+                b1, b2, bs, be = cl[0]
+                params = src[toks[s[b1]].end:toks[s[b2]].start].strip()
+                body = src[toks[s[bs]].start:toks[s[be]].end]
+                j = k - 1
+                while j >= 0:
+                    tj = toks[s[j]]
+                    if tj.text == "}" and toks[s[j + 1]].text not in (".", "?"):
+                        break
+                    if tj.text in ")]}":
+                        j = s.index(m[s[j]]) - 1
+                        continue
+                    if tj.text in "({[;,!" or tj.text == "=" or (tj.text == ">" and toks[s[j - 1]].text == "=") or \
+                            (tj.text in "&|" ) or (tj.kind == "ident" and tj.text in ("return", "in", "let", "match", "if")):
+                        break
+                    j -= 1
+                r0 = j + 1
+                recv = src[toks[s[r0]].start:toks[i].start].strip()
+                bind = ("let s__%d = &%s;" if kind == "vec" else "let s__%d = %s;") % (n, recv)
+                if which == "any":
+                    new = ("{ %s let mut i__%d: usize = 0; let mut r__%d = false; while i__%d < s__%d.len() /*@any*/ { let %s = &s__%d[i__%d]; "
+                           "if %s { r__%d = true; break; } i__%d += 1; } r__%d }") % (bind, n, n, n, n, params, n, n, body, n, n, n)
+                else:
+                    new = ("{ %s let mut i__%d: usize = 0; let mut r__%d = true; while i__%d < s__%d.len() /*@all*/ { let %s = &s__%d[i__%d]; "
+                           "if !(%s) { r__%d = false; break; } i__%d += 1; } r__%d }") % (bind, n, n, n, n, params, n, n, body, n, n, n)
+                hit = (toks[s[r0]].start, toks[c].end, new)
+                break
+        if hit is None:
+            break
+        src = _replace(src, [hit])
+        n += 1
+    log["R19"] = log.get("R19", 0) + n
+    return src
+
+
+
 def r11_bytelits(src, log, table):
     """b"lit" -> blit_<n>()  ; table collects the generated external_body functions.
     `E == b"lit"` (slice equality against a literal) -> `bytes_eq(E, blit_<n>())`, where the shim
@@ -754,7 +807,8 @@ def r7_apply(src, log, map_kind="result"):
                     log.setdefault("R7.fired", []).append("map_or")
                     changed = True
                     break
-                if meth not in ("map", "ok_or_else", "or_else", "then", "then_some", "map_err", "ok_or", "and_then", "unwrap_or_else"):
+                if meth not in ("map", "ok_or_else", "or_else", "then", "then_some", "map_err", "ok_or", "and_then", "unwrap_or_else",
+                                "is_some_and", "filter"):
                     continue
                 o = s[k + 2]; c = m[o]
                 ok_, ck_ = k + 2, s.index(c)
@@ -809,6 +863,11 @@ def r7_apply(src, log, map_kind="result"):
                     transposed = True
                 if meth == "then_some":
                     new = "(if %s { Some(%s) } else { None })" % (recv, arg)
+                elif meth == "is_some_and":
+                    new = "(match %s { Some(%s) => %s, None => false })" % (recv, params, body)
+                elif meth == "filter":
+                    # Option::filter(|p| B): the closure sees `&T`
+                    new = "(match %s { Some(v__) => { let %s = &v__; if %s { Some(v__) } else { None } }, None => None })" % (recv, params, body)
                 elif transposed:
                     new = "(match %s { Some(%s) => (match %s { Ok(v__) => Ok(Some(v__)), Err(e__) => Err(e__) }), None => Ok(None) })" % (recv, params, body)
                 elif meth == "map" and map_kind == "result":
@@ -863,6 +922,7 @@ RULES = {
 class GenLine:
     text: str
     origin: tuple          # ('src', file, line) | ('tpl', line, label, kind) | ('gen', what)
+    fid: str | None = None  # id of the extracted function this line belongs to
 
 
 @dataclass
@@ -1120,6 +1180,8 @@ def _gen_function(kv, sections, repo, res: UnitResult, variant) -> list:
             body = r14_constcall(body, log, set(kv.get("consts", "").split(",")))
         elif r == "R5":
             body = r5_break(body, log)
+        elif r == "R19":
+            body = r19_any_all(body, log, kv.get("r19kind", "vec"))
         elif r == "R8":
             body = r8_constpat(body, log, [c for c in kv.get("constpats", "").split(",") if c])
         elif r in RULES:
@@ -1263,7 +1325,10 @@ def _gen_function(kv, sections, repo, res: UnitResult, variant) -> list:
         "lines": [line0, line0 + body.count("\n")], "sha256": span.sha256, "rules": log,
         "sub_span": kv.get("block") or kv.get("expr"),
     })
-    return sig_lines + contract_lines + out_lines
+    allines = sig_lines + contract_lines + out_lines
+    for gl in allines:
+        gl.fid = fid
+    return allines
 
 
 if __name__ == "__main__":
